@@ -124,7 +124,8 @@ def job_sphere(j):
     R = 6378137.0 if rad is None else float(rad)
     # narrow argument types make numba compute the haversine in float32 (7 digits: metres at planetary scale)
     out = {"kind": "sphere", "lon": lon, "lat": lat, "m": m, "zero": z, "bits": bt,
-           "piR": int(math.ceil(math.pi * R)) + (0 if full else 16), "slack": 2 if full else 64,
+           "piR": int(math.ceil(math.pi * R)) + (0 if full else 16), "slack": 2 if full else max(64, int(R * 1e-3)),   # float32 haversine near antipodes is ill-conditioned:
+           # the error of 2R*asin(sqrt(a)) for a -> 1 is of the order R*sqrt(eps32) (kilometres, not metres)
            "ztol": 0 if full else 8, "sc": dsc}
     if err:
         out["error"] = err
